@@ -514,6 +514,11 @@ func featRank100Tie(m *gen.Mixed, ts *gen.TieSetup, p *modelParams) {
 			for i := 0; i < 100; i += 3 { // every third newcomer, from both ends of the creation order
 				st = append(st, fresh[i])
 			}
+			// only 20 records of established holders: at least five winners (25 are needed) must come from the
+			// newcomers, i.e. from those of them that count as top-100 holders
+			if len(s.SPR) > 20 {
+				s.SPR = s.SPR[:20]
+			}
 			s.SPR = append(s.SPR, m.W.StdSPRs(h, st, m.W.Prices)...)
 		})
 	}
@@ -832,7 +837,8 @@ func featC14(m *gen.Mixed, ts *gen.TieSetup, p *modelParams) {
 	// take the minimum with and earns nothing
 	{
 		ek := forge.NewKey(fmt.Sprintf("c14-emptied-%d", p.Seed))
-		fundMany(m, ts.Whale, first+2, []forge.Key{ek}, func(int) uint64 { return per*2 + 12345 })
+		rk := forge.NewKey(fmt.Sprintf("c14-refiller-%d", p.Seed)) // (the whale may have left by then)
+		fundMany(m, ts.Whale, first+2, []forge.Key{ek, rk}, func(int) uint64 { return per*2 + 12345 })
 		s1 := firstSnap + 144
 		m.ForceGraded[s1+5], m.ForceGraded[s1+6], m.ForceGraded[s1+144+5] = true, true, true
 		m.Schedule(s1+5, func(v *gen.View, s *forge.BlockSpec) {
@@ -845,7 +851,7 @@ func featC14(m *gen.Mixed, ts *gen.TieSetup, p *modelParams) {
 			}
 		})
 		m.Schedule(s1+144+5, func(v *gen.View, s *forge.BlockSpec) {
-			s.Tx = append(s.Tx, forge.SignedBatch([]forge.Tx{forge.Transfer(ts.Whale.FA(), fat2.PTickerUSD, per*2+777, ek.FA())}, m.W.EntryTime(s1+144+5)+140, ts.Whale))
+			s.Tx = append(s.Tx, forge.SignedBatch([]forge.Tx{forge.Transfer(rk.FA(), fat2.PTickerUSD, per+777, ek.FA())}, m.W.EntryTime(s1+144+5)+140, rk))
 		})
 	}
 	// movements between snapshots: out, in, round trip, new arrival
